@@ -64,6 +64,8 @@ pub enum Container {
     Lmer3,
     /// smallest fixed-size container that holds 2K-P bases (Lmer1: 28, Lmer2: 60, Lmer3: 92)
     LmerTight,
+    /// zero-copy: pieces are sub-slices of (possibly reverse-complemented) views into one packed string
+    SliceViews,
 }
 
 #[derive(Clone, Debug, Serialize, Deserialize, PartialEq)]
@@ -105,6 +107,10 @@ pub struct Case {
     pub worker_censor: bool,
     /// 0 = in-memory hand-off; otherwise seed of the persistence hop's stream plans
     pub persist_seed: u64,
+    /// shard workers that do not censor call the slice entry point `compress_kmers` on the table in
+    /// iteration (i.e. unsorted) order instead of `compress_kmers_with_hash`
+    #[serde(default)]
+    pub worker_slice_entry: bool,
 }
 
 impl Case {
@@ -214,7 +220,9 @@ fn hand_off<K: Kmer + Serialize + DeserializeOwned, DS: Clone + Serialize + Dese
     Ok(back)
 }
 
-fn run_sharded<K, P, V, M>(c: &Case, rec: &mut Rec) -> Result<DebruijnGraph<K, M::DS>, Violation>
+type Sharder<'s, V> = &'s dyn Fn(usize, Option<&[usize]>) -> Vec<(u32, Exts, V)>;
+
+fn run_sharded<K, P, V, M>(c: &Case, rec: &mut Rec, sharder: Sharder<V>) -> Result<DebruijnGraph<K, M::DS>, Violation>
 where
     K: Kmer + Send + Sync + Serialize + DeserializeOwned,
     P: Kmer,
@@ -252,7 +260,7 @@ where
             Ev::Emit(ri) => {
                 let read = &c.reads[ri];
                 rec.ev("emit", ri as u64, read.len() as u64);
-                let parts = msp_sequence::<P, V>(k, read, perm.as_deref(), c.msp_rc);
+                let parts = sharder(ri, perm.as_deref());
                 for (bucket, exts, seq) in parts {
                     let shard = match c.fold_mod {
                         None => bucket as u64,
@@ -338,6 +346,9 @@ where
                     let mut v = sorted_table(&table);
                     remove_censored_exts_sharded(c.stranded, &mut v, &all);
                     compress_kmers(c.stranded, &M::spec(), &v)
+                } else if c.worker_slice_entry {
+                    let v: Vec<(K, (Exts, M::DS))> = table.iter().map(|(k, e, d)| (*k, (*e, d.clone()))).collect();
+                    compress_kmers(c.stranded, &M::spec(), &v)
                 } else {
                     compress_kmers_with_hash(c.stranded, &M::spec(), &table)
                 };
@@ -399,7 +410,7 @@ where
     Ok(out)
 }
 
-fn run_mode<K, P, V, M>(c: &Case, rec: &mut Rec) -> Result<(), Violation>
+fn run_mode<K, P, V, M>(c: &Case, rec: &mut Rec, sharder: Sharder<V>) -> Result<(), Violation>
 where
     K: Kmer + Send + Sync + Serialize + DeserializeOwned,
     P: Kmer,
@@ -411,7 +422,7 @@ where
         d.bytes(r);
     }
     rec.env.u64(d.0);
-    let sharded = run_sharded::<K, P, V, M>(c, rec)?;
+    let sharded = run_sharded::<K, P, V, M>(c, rec, sharder)?;
     let reference = one_pass::<K, M>(c);
     rec.ev("reference", reference.len() as u64, 0);
     let fmt = |d: &M::DS| M::fmt(d);
@@ -432,10 +443,88 @@ where
     P: Kmer,
     V: Vmer + Clone,
 {
+    // the documented sharder: msp_sequence copies each piece into a container of type V
+    let k = K::k();
+    let sharder = |ri: usize, perm: Option<&[usize]>| msp_sequence::<P, V>(k, &c.reads[ri], perm, c.msp_rc);
+    run_with::<K, P, V>(c, rec, &sharder)
+}
+
+fn run_with<K, P, V>(c: &Case, rec: &mut Rec, sharder: Sharder<V>) -> Result<(), Violation>
+where
+    K: Kmer + Send + Sync + Serialize + DeserializeOwned,
+    P: Kmer,
+    V: Vmer + Clone,
+{
     match c.spec {
-        SpecKind::Sum => run_mode::<K, P, V, SumMode>(c, rec),
-        SpecKind::Scmap => run_mode::<K, P, V, ScmapMode>(c, rec),
+        SpecKind::Sum => run_mode::<K, P, V, SumMode>(c, rec, sharder),
+        SpecKind::Scmap => run_mode::<K, P, V, ScmapMode>(c, rec, sharder),
     }
+}
+
+/// Zero-copy sharder: all reads live in one packed string (every other one stored
+/// reverse-complemented and seen through an rc VIEW), `Scanner` finds the minimizer intervals on
+/// the view and the pieces are sub-slices of it - the alternative the `msp` module itself points
+/// to ("use the Scanner type"). Flanking bases are read from the view.
+fn run_views<K, P>(c: &Case, rec: &mut Rec) -> Result<(), Violation>
+where
+    K: Kmer + Send + Sync + Serialize + DeserializeOwned,
+    P: Kmer,
+{
+    use debruijn::dna_string::DnaStringSlice;
+    use debruijn::msp::Scanner;
+    use debruijn::Mer;
+    let k = K::k();
+    let mut backing = DnaString::new();
+    let mut spans = Vec::new();
+    for (i, r) in c.reads.iter().enumerate() {
+        for j in 0..(3 + (i * 7) % 11) {
+            backing.push(((i + j) % 4) as u8);
+        }
+        let start = backing.len();
+        let as_rc = i % 2 == 1;
+        if as_rc {
+            for b in dna::rc(r) {
+                backing.push(b);
+            }
+        } else {
+            for b in r {
+                backing.push(*b);
+            }
+        }
+        spans.push((start, backing.len(), as_rc));
+    }
+    backing.push(0);
+    let views: Vec<DnaStringSlice> = spans.iter().map(|(a, b, v)| if *v { backing.slice(*a, *b).rc() } else { backing.slice(*a, *b) }).collect();
+    rec.count("reach_zero_copy_sharder");
+    let rc = c.msp_rc;
+    let sharder = |ri: usize, perm: Option<&[usize]>| -> Vec<(u32, Exts, DnaStringSlice)> {
+        let v = &views[ri];
+        if v.len() < k {
+            return Vec::new();
+        }
+        let score = |pi: &P| -> usize {
+            let f = |x: &P| match perm {
+                Some(p) => p[x.to_u64() as usize],
+                None => x.to_u64() as usize,
+            };
+            if rc {
+                std::cmp::min(f(pi), f(&pi.rc()))
+            } else {
+                f(pi)
+            }
+        };
+        Scanner::new(v, score, k)
+            .scan()
+            .into_iter()
+            .map(|iv| {
+                let (a, b) = (iv.start as usize, iv.start as usize + iv.len as usize);
+                let l = if a > 0 { 1u8 << v.get(a - 1) } else { 0 };
+                let r = if b < v.len() { 1u8 << v.get(b) } else { 0 };
+                (iv.bucket() as u32, Exts::new((r << 4) | l), v.slice(a, b))
+            })
+            .collect()
+    };
+    run_with::<K, P, DnaStringSlice>(c, rec, &sharder)
 }
 
 fn run_kp<K, P>(c: &Case, rec: &mut Rec, lmer_ok: bool) -> Result<(), Violation>
@@ -444,6 +533,7 @@ where
     P: Kmer,
 {
     match c.container {
+        Container::SliceViews => run_views::<K, P>(c, rec),
         Container::DnaString => run_v::<K, P, DnaString>(c, rec),
         Container::DnaBytes => run_v::<K, P, DnaBytes>(c, rec),
         Container::Lmer3 => {
@@ -547,7 +637,8 @@ impl Harness for C04 {
                 _ => rng.below(3) as u8,
             })
             .collect();
-        let container = match rng.below(6) {
+        let container = match rng.below(7) {
+            6 => Container::SliceViews,
             0 | 1 => Container::DnaString,
             2 | 3 => Container::DnaBytes,
             4 => {
@@ -597,6 +688,7 @@ impl Harness for C04 {
             budget_seed: if rng.chance(1, 3) { 0 } else { rng.next_u64() | 1 },
             worker_censor: rng.chance(1, 2),
             persist_seed: if rng.chance(2, 3) { 0 } else { rng.next_u64() | 1 },
+            worker_slice_entry: rng.chance(1, 3),
         }
     }
     fn run(&self, c: &Case, rec: &mut Rec) -> Result<(), Violation> {
@@ -677,6 +769,11 @@ impl Harness for C04 {
         if c.worker_censor {
             let mut x = c.clone();
             x.worker_censor = false;
+            out.push(x);
+        }
+        if c.worker_slice_entry {
+            let mut x = c.clone();
+            x.worker_slice_entry = false;
             out.push(x);
         }
         if c.container != Container::DnaBytes {
